@@ -44,3 +44,26 @@ package value
 //@       && (value < s.a.start <==> k == 0) && (value >= s.a.start+float64(s.a.bins-2)*s.a.size <==> k == s.a.bins-1) \
 //@       && (1 <= k && k <= s.a.bins-2 ==> s.a.start+float64(k-1)*s.a.size <= value && value < s.a.start+float64(k)*s.a.size)
 //@   assigns s.bins[*]
+
+//@ func New2d
+//@   property C20
+//@   safety C20
+//@   requires xCount >= 0 && yCount >= 0
+//@   ensures result != nil && fresh(result)
+//@   ensures len(result.bins) == xCount+2 && result.x.bins == xCount+2 && result.y.bins == yCount+2
+//@   ensures result.x.start == xStart && result.x.size == xSize && result.y.start == yStart && result.y.size == ySize
+//@   ensures forall i in 0..xCount+2 :: len(result.bins[i]) == yCount+2
+//@   loop 1 invariant len(bins) == xCount+2 && fresh(bins) && 0 <= rangeidx && rangeidx <= len(bins) && (forall j in 0..rangeidx :: len(bins[j]) == yCount+2)
+
+//@ func (s *Binning2dData) Add
+//@   property C20
+//@   safety C20
+//@   requires s.x.size > 0.0 && s.x.bins >= 2 && len(s.bins) == s.x.bins
+//@   requires s.y.size > 0.0 && s.y.bins >= 2 && (forall i in 0..len(s.bins) :: len(s.bins[i]) == s.y.bins)
+//@   requires forall i in 0..len(s.bins) :: forall j in 0..len(s.bins) :: i != j ==> ref(s.bins[i]) != ref(s.bins[j])
+//@   ensures[onecell] exists i in 0..len(s.bins) :: exists j in 0..s.y.bins :: s.bins[i][j] == old(s.bins[i][j])+toSum \
+//@       && (x < s.x.start <==> i == 0) && (x >= s.x.start+float64(s.x.bins-2)*s.x.size <==> i == s.x.bins-1) \
+//@       && (1 <= i && i <= s.x.bins-2 ==> s.x.start+float64(i-1)*s.x.size <= x && x < s.x.start+float64(i)*s.x.size) \
+//@       && (y < s.y.start <==> j == 0) && (y >= s.y.start+float64(s.y.bins-2)*s.y.size <==> j == s.y.bins-1) \
+//@       && (1 <= j && j <= s.y.bins-2 ==> s.y.start+float64(j-1)*s.y.size <= y && y < s.y.start+float64(j)*s.y.size) \
+//@       && (forall p in 0..len(s.bins) :: forall q in 0..s.y.bins :: (p != i || q != j) ==> s.bins[p][q] == old(s.bins[p][q]))
